@@ -110,10 +110,10 @@ Example C13_nonvacuous_double :
   exists a e, AValid N (fun x => x) a e /\ nbuckets (backend a) = 8 /\ get (cells (backend a)) 0 = Some (7, 3).
 Proof.
   destruct (C13_history_refines_set N 0 (fun x => x) 3 (firstn 6 ex_ops) _ _ eq_refl) as (ans & a & e & Hrun & _ & Hv & _).
-  exists a, e. split; [exact Hv|].
-  assert (E : run N 0 (fun x => x) (init_pow2 N 0 3) (firstn 6 ex_ops) =
-              Ok (fst (match run N 0 (fun x => x) (init_pow2 N 0 3) (firstn 6 ex_ops) with Ok r => r | _ => ([], init_pow2 N 0 3) end),
-                  snd (match run N 0 (fun x => x) (init_pow2 N 0 3) (firstn 6 ex_ops) with Ok r => r | _ => ([], init_pow2 N 0 3) end)))
-    by (vm_compute; reflexivity).
-  rewrite E in Hrun. injection Hrun as _ <-. vm_compute. split; reflexivity.
+  assert (Hc : exists ans0 a0, run N 0 (fun x => x) (init_pow2 N 0 3) (firstn 6 ex_ops) = Ok (ans0, a0) /\
+                               nbuckets (backend a0) = 8 /\ get (cells (backend a0)) 0 = Some (7, 3)).
+  { eexists _, _. split; [vm_compute; reflexivity|]. split; reflexivity. }
+  destruct Hc as (ans0 & a0 & E & P1 & P2).
+  rewrite E in Hrun. injection Hrun as <- <-.
+  exists a0, e. auto.
 Qed.
